@@ -4,6 +4,8 @@
 //! scheduler (one shared-memory operation per grant, yield points in bucket.rs); every executed schedule is
 //! replayed on the Lean step machine (`bucket run 64 …`), which must take the same steps and return the
 //! same values. Implementation-side oracles check conservation directly on what the real code returned.
+//! One grant = one model step for every PC: the detaching compare-exchange of `clear_with` has its own yield point
+//! `bkt.clear.cas` (between the tail load and the CAS), so a hand-over can be placed between the two (failed detach).
 
 use crate::sched;
 use crate::util::*;
@@ -300,13 +302,16 @@ fn call_spans(progs: &[Vec<Call>], o: &Outcome) -> Vec<Vec<(usize, usize)>> {
 
 #[derive(Default)]
 pub struct Sig {
-    pub k1: bool, // a clear detached the chain between a pusher's tail load and its slot claim
+    pub k1: bool, // a clear's detach CAS (`bkt.clear.cas`, failed or not) lies between a pusher's tail load and its slot claim
     pub k2: bool, // a reader loaded tail while a pusher was between its tail CAS and the link of `next`
     pub k3: bool, // is_empty evaluated while another pusher was between claim and publish
     /// EXACT count of K1 steps = the Lean predicate `k1Step` (Model/BucketGhost.lean; theorems `C05.conservation_except_K1`,
     /// `C05.K1_has_detach_between`): slot claims that succeed on a block a clear has detached since the pusher obtained it.
-    /// `k1` above is the older, coarser trace signature (any clear's tail load between a pusher's tail load and its claim).
+    /// `k1` above is the older, coarser trace signature (any clear's CAS step between a pusher's tail load and its claim).
     pub k1_exact: usize,
+    /// grant indices of the `bkt.clear.cas` steps whose compare-exchange FAILED (the thread's next point is not
+    /// `bkt.clear.quiesced`): that `clear_with` returns having delivered nothing (`C05.failed_detach_delivers_nothing_and_loses_nothing`)
+    pub failed_detaches: Vec<usize>,
 }
 
 pub fn signatures(o: &Outcome) -> Sig {
@@ -323,14 +328,21 @@ pub fn signatures_of_trace(tr: &[(usize, &'static str)]) -> Sig {
     let mut clears: Vec<usize> = vec![];
     // ---- exact K1. A pusher obtains the block of its claim in its PREVIOUS grant (tail load with a non-null tail, the
     // first-block CAS, or the won hand-over CAS: the only steps that lead to the claim point; Lean:
-    // `C05.pusher_claims_on_the_tail_it_saw`). A clear detaches the chain in the grant of `bkt.clear.load_tail` (load and
-    // CAS have no yield point between them, so the CAS succeeds) iff the tail was non-null, i.e. iff that thread's next
-    // point is `bkt.clear.quiesced`. The claim really takes a slot iff the pusher's next point is the publish step.
+    // `C05.pusher_claims_on_the_tail_it_saw`). A clear detaches the chain in the grant of `bkt.clear.cas` (the yield point
+    // between its tail load and its CAS; reached only when the loaded tail was non-null) iff the CAS succeeds, i.e. iff
+    // that thread's next point is `bkt.clear.quiesced` (a failed CAS ends the call: `C05.detach_cas_all_or_nothing`).
+    // The claim really takes a slot iff the pusher's next point is the publish step.
     let next_of = |gi: usize, t: usize| tr[gi + 1..].iter().find(|(t2, _)| *t2 == t).map(|x| x.1);
     let detaches: Vec<usize> = tr
         .iter()
         .enumerate()
-        .filter(|(gi, (t, id))| *id == "bkt.clear.load_tail" && next_of(*gi, *t) == Some("bkt.clear.quiesced"))
+        .filter(|(gi, (t, id))| *id == "bkt.clear.cas" && next_of(*gi, *t) == Some("bkt.clear.quiesced"))
+        .map(|x| x.0)
+        .collect();
+    sig.failed_detaches = tr
+        .iter()
+        .enumerate()
+        .filter(|(gi, (t, id))| *id == "bkt.clear.cas" && next_of(*gi, *t) != Some("bkt.clear.quiesced"))
         .map(|x| x.0)
         .collect();
     if !detaches.is_empty() {
@@ -347,7 +359,7 @@ pub fn signatures_of_trace(tr: &[(usize, &'static str)]) -> Sig {
     for (gi, (t, id)) in tr.iter().enumerate() {
         match *id {
             "bkt.push.load_tail" => loaded_tail_at[*t] = Some(gi),
-            "bkt.clear.load_tail" => clears.push(gi),
+            "bkt.clear.cas" => clears.push(gi),
             "blk.push.claim" => {
                 if let Some(l) = loaded_tail_at[*t] {
                     if clears.iter().any(|c| *c > l && *c < gi) {
@@ -443,6 +455,35 @@ pub fn oracle(out: &mut Out, progs: &[Vec<Call>], o: &Outcome) {
         let rs: Vec<Vec<&Res>> = o.results.iter().map(|r| r.iter().filter(|x| **x != Res::Pushed).collect()).collect();
         format!("{} :: trace {} results(non-push) {:?}", what, trs, rs)
     };
+    // ---- a clear whose detach CAS failed (the tail changed between its load and its CAS: a pusher's hand-over or another
+    // clear's detach): it must return having called its callback not at all (`C05.detach_cas_all_or_nothing`: there is no
+    // partial drain). No clause of C05 is violated by the empty result — the values stay visible to later reads, which the
+    // conservation and snapshot oracles below check as for every run — so this is counted, not alarmed.
+    for g in &sig.failed_detaches {
+        let t = o.run.trace[*g].0;
+        out.count("clear: detach CAS failed (clear_with returned without draining)");
+        let Some(k) = spans[t].iter().position(|sp| sp.0 <= *g && *g <= sp.1) else { continue };
+        let began = spans[t][k].0;
+        match (progs[t].get(k), o.results[t].get(k), o.cbs[t].get(k)) {
+            (Some(Call::Clear), Some(Res::Clr(vs)), Some(lens)) => {
+                if !vs.is_empty() || !lens.is_empty() {
+                    out.oracle_fail(
+                        "clear_with whose detach compare-exchange failed still called its callback (partial drain)",
+                        &detail(&format!("thread {} call {} delivered {:?} in {} callbacks", t, k, vs, lens.len())),
+                    );
+                }
+                // completed pushes that were in the bucket before this clear began and that no clear (this one included)
+                // ever took before it began: the drain missed them — they must still be accounted for at the end
+                let missed = pushed.iter().filter(|(v, done_at)| **done_at < began && delivered.get(*v).map_or(true, |d| *d > began)).count();
+                if missed > 0 {
+                    out.count("clear: failed detach delivered nothing although pushes completed before it began were in the bucket");
+                    out.nontrivial();
+                }
+            }
+            (Some(Call::Clear), None, _) => {} // the run ended before the call returned
+            other => out.oracle_fail("trace/program mismatch: a bkt.clear.cas grant inside a call that is not a clear", &detail(&format!("{:?}", other.0))),
+        }
+    }
     // ---- destructors / reclamation: every value handed to push() is dropped exactly once after the final clear(),
     // the drop of the bucket and a drive of the collector; no callback ever saw a dropped value
     if !o.drops.never_dropped.is_empty() {
@@ -672,7 +713,7 @@ fn one(out: &mut Out, progs: &[Vec<Call>], sch: &[usize]) {
         out.count("sig.K1 exact (Lean k1Step)");
     }
     if sig.k1 && sig.k1_exact == 0 {
-        out.count("sig.K1 coarse only (a clear's tail load between a pusher's load and claim, but no claim on a detached block)");
+        out.count("sig.K1 coarse only (a clear's CAS step between a pusher's load and claim, but no claim on a detached block)");
     }
     if sig.k2 {
         out.count("sig.K2");
@@ -821,6 +862,32 @@ pub fn run(cfg: &Cfg, out: &mut Out) {
     ));
     // plain hand-over
     corpus.push((vec![pf(B + 2), vec![Call::Data, Call::Clear, Call::Data]], [rep(0, (B + 2) * 3 + 8), rep(1, 60)].concat()));
+    // FAILED DETACH (Lean: C05.failed_detach_witness / failed_detach_delivers_nothing_and_loses_nothing; the bucket-level
+    // form of C07.conc_render_can_miss_completed_record): 64 pushes have COMPLETED and fill the tail block; the clearer
+    // loads the tail and is parked at its CAS (`bkt.clear.cas`); the 65th push finds the block full, installs a new tail
+    // and completes; the clearer's CAS fails: `clear_with` returns having delivered nothing although 64 pushes had
+    // completed before it began. The snapshot after it sees all 65 values, the next clear delivers all 65.
+    corpus.push((
+        vec![pf(B), vec![Call::Push(9000)], vec![Call::Clear, Call::Data, Call::Clear, Call::Data, Call::IsEmpty]],
+        [rep(0, B * 3 + 3), rep(2, 2), rep(1, 6), rep(2, 40)].concat(),
+    ));
+    // the same with the clearer parked at its CAS through TWO hand-overs (the tail it loaded is two blocks back)
+    corpus.push((
+        vec![pf(B), (0..(B as u64 + 1)).map(|x| Call::Push(9000 + x)).collect(), vec![Call::Clear, Call::DataV, Call::Clear]],
+        [rep(0, B * 3 + 3), rep(2, 2), rep(1, 3 * (B + 1) + 6), rep(2, 40)].concat(),
+    ));
+    // failed detach caused by ANOTHER CLEAR: A loads the tail, B detaches and delivers everything, A's CAS fails (the
+    // tail is null): A delivers nothing, nothing is delivered twice
+    corpus.push((
+        vec![pf(3), vec![Call::Clear, Call::IsEmpty], vec![Call::Clear, Call::Data]],
+        [rep(0, 3 * 3 + 3), rep(1, 2), rep(2, 7), rep(1, 6), rep(2, 6)].concat(),
+    ));
+    // … and with a push re-installing a first block between B's detach and A's CAS (the tail is non-null again, but it is
+    // another block than the one A loaded — blocks are never reused while a reader is pinned)
+    corpus.push((
+        vec![pf(3), vec![Call::Clear, Call::Data], vec![Call::Clear], vec![Call::Push(777)]],
+        [rep(0, 3 * 3 + 3), rep(1, 2), rep(2, 7), rep(3, 5), rep(1, 8)].concat(),
+    ));
     for (progs, sch) in corpus {
         out.case("corpus");
         one(out, &progs, &sch);
@@ -856,6 +923,25 @@ pub fn run(cfg: &Cfg, out: &mut Out) {
                 sch.extend(rep(3, 600));
                 out.count("deep-handover");
                 one(out, &[t0, t1, t2, t3], &sch);
+            }
+        }
+    }
+    // ---- failed-detach grid: the clearer (T2) has loaded the tail and is parked at its detach CAS (`bkt.clear.cas`)
+    // while the pusher T1 completes j pushes — crossing the hand-over when pre + j > B, which makes the CAS fail —
+    // optionally a second clearer (T3) runs a whole clear meanwhile; then T2 goes on (CAS, snapshot, second clear).
+    for pre in [1usize, B - 1, B] {
+        for j in [1usize, 2, B + 1] {
+            for second_clearer in [false, true] {
+                out.case(&format!("failed-detach grid pre={} j={} second_clearer={}", pre, j, second_clearer));
+                let mut progs = vec![pf(pre), (0..j as u64).map(|x| Call::Push(10_000 + x)).collect(), vec![Call::Clear, Call::Data, Call::Clear, Call::Data]];
+                let mut sch = [rep(0, pre * 3 + 4), rep(2, 2), rep(1, 3 * j + 12)].concat();
+                if second_clearer {
+                    progs.push(vec![Call::Clear]);
+                    sch.extend(rep(3, 5 + 3 * 3));
+                }
+                sch.extend(rep(2, 80));
+                out.count("failed-detach grid");
+                one(out, &progs, &sch);
             }
         }
     }
@@ -948,7 +1034,7 @@ pub fn run(cfg: &Cfg, out: &mut Out) {
         let blocks = (n + B - 1) / B;
         let mut sch = rep(0, 3 * n + 2 * blocks + 8);
         sch.extend(rep(1, 3 * blocks + 4)); // the snapshot
-        sch.extend(rep(1, 1 + 3 * 12)); // the clear: detach, then 12 blocks into the walk
+        sch.extend(rep(1, 2 + 3 * 12)); // the clear: tail load, detach CAS, then 12 blocks into the walk
         sch.extend(rep(2, 6)); // a push lands in a fresh block meanwhile
         sch.extend(rep(1, 3 * blocks + 20));
         sch.extend(rep(2, 6));
